@@ -43,6 +43,27 @@ CHECKS = {
 		note='Oracle is a Python list; view/copy semantics are not asserted. A Python bool as scalar index is excluded (list and NumPy semantics disagree). Two genuine defects found and repaired (see KNOWN_FINDINGS.txt).',
 		design='DESIGN.md §4 C20',
 	),
+	'C05': dict(
+		category='exploration',
+		technique='Hypothesis-generated collections x containers x chunk sizes x index selections x out buffers x thread counts, repeated runs; differential oracle: pairwise jaccarddist + exact rational distance per cell (bit compare)',
+		text='Every cell of jaccarddist_array / jaccarddist_matrix / jaccarddist_pairwise (square and condensed) is compared bit-for-bit with the two-signature distance and, for sets <= 400 elements, with the exact rational value rounded once to binary32, over generated collections (empty signatures, duplicates, 5000-element signatures) held in SignatureArray (incl. int32 bounds), SignatureList, plain list and an HDF5 file, with chunk sizes 1..n+1, permuted/repeated/empty index selections, fresh and strided out buffers, and 1..16 OpenMP threads, each call repeated 3x (quick) / 20x (thorough).',
+		note='The OpenMP dynamic schedule cannot be owned from Python: thread interleavings are sampled (thread counts x repeats), not enumerated, so a rare data race can be missed (a seeded shared-variable race is caught within the quick budget). OMP_WAIT_POLICY=passive is set for the workers.',
+		design='DESIGN.md §4 C05',
+	),
+	'C12': dict(
+		category='exploration',
+		technique='Hypothesis-generated signature collections: dump/load round trip vs a list model; generated foreign byte strings and foreign HDF5 files must be refused',
+		text='Round trips over k 1..32 (all four index widths, values up to 4^k-1), empty/all-empty signatures, both write paths, string/int64/uint64 IDs, Unicode metadata with nested JSON extra and every compression filter are compared field by field and index expression by index expression with a Python list model; generated non-signature files (empty, text, FASTA, random, gzip, short prefixes, HDF5 files of other kinds incl. signature-shaped files lacking only the marker) must raise SignaturesFileError, and corrupt HDF5-magic files some exception.',
+		note='Strings contain no NUL / lone surrogates (not storable in HDF5 vlen strings). h5py/HDF5 are part of the system under test only through gambit\'s use of them.',
+		design='DESIGN.md §4 C12',
+	),
+	'C19': dict(
+		category='fault_enumeration',
+		technique='process-level fault injection: forked writer SIGKILLed before each h5py call boundary (all points enumerated per generated payload); oracle: load raises or loads exactly the payload',
+		text='For each generated payload (both write paths, small and multi-megabyte, with/without compression) every storage-call boundary of the write is used as a crash point (one forked, SIGKILLed writer per point, plus the after-close control); the file left behind must be refused or load as exactly the payload.',
+		note='Crash points are h5py call boundaries (attribute set, dataset create, dataset write, flush, close); a kill inside H5Fclose is outside the quantifier. SIGKILL models process death, not power loss.',
+		design='DESIGN.md §4 C19',
+	),
 }
 
 NOT_APPLICABLE = {}
